@@ -87,6 +87,15 @@ fn main() {
         c03::child_main();
         return;
     }
+    if args.len() >= 2 && args[1] == "zipprobe" {
+        if args.len() > 3 {
+            let v: Vec<usize> = args[2..].iter().filter_map(|x| x.parse().ok()).collect();
+            zipx::probe_real(&v);
+        } else {
+            zipx::probe(args.get(2).and_then(|x| x.parse().ok()).unwrap_or(400));
+        }
+        return;
+    }
     if args.len() < 5 {
         eprintln!("usage: adlt-verif <area> gen <seed> <n> <out> [tier] | adlt-verif <area> run <cases> <out>");
         std::process::exit(2);
